@@ -132,8 +132,31 @@ func Assert(c bool, label string) {
 // Reach marks a point that must be reachable (vacuity witness).
 func Reach(label string) {}
 
+// holdFor makes the native replay keep event name back until event target has
+// happened (or a timeout passes): this is how a schedule found by the solver
+// is forced onto the real code.
+func holdFor(name string) {
+	mu.Lock()
+	load()
+	target, ok := inputs["hold:"+name]
+	mu.Unlock()
+	if !ok {
+		return
+	}
+	for i := 0; i < 200; i++ {
+		mu.Lock()
+		n := counts[target]
+		mu.Unlock()
+		if n > 0 {
+			return
+		}
+		yield()
+	}
+}
+
 // Event appends a named event to the trace of the running goroutine.
 func Event(name string) {
+	holdFor(name)
 	mu.Lock()
 	events = append(events, name)
 	counts[name]++
@@ -187,7 +210,24 @@ func RequireOrder(a, b string) {
 }
 
 // RequireJoined demands that no goroutine activity follows event ret.
-func RequireJoined(ret string) {}
+func RequireJoined(ret string) {
+	Quiesce()
+	mu.Lock()
+	defer mu.Unlock()
+	last := -1
+	for i, e := range events {
+		if e == ret {
+			last = i
+		}
+	}
+	if last >= 0 && last != len(events)-1 {
+		fmt.Printf("VND-ASSERT-FAILED: joined (events after %s: %v)\n", ret, events[last+1:])
+		os.Exit(3)
+	}
+}
+
+// StopIfViolated ends the path when a schedule query already failed.
+func StopIfViolated() {}
 
 // NoRaces demands that no two conflicting accesses to tracked locations
 // (names with the given prefix) can be adjacent in a consistent schedule.
